@@ -1,4 +1,4 @@
-import Wal.Model.Eval
+import Wal.Lemmas.Global
 /-!
 # C07 — Static variable resolution never changes program behaviour
 
@@ -22,7 +22,7 @@ namespace Wal.C07
 open Wal
 
 /-- frames are allocated after their parents: the parent id is smaller (chains are finite and acyclic) -/
-def HeapOK (st : St) : Prop := ∀ (i : Nat) (f : Frame) (p : Nat), st.frames[i]? = some f → f.parent = some p → p < i
+abbrev HeapOK (st : St) : Prop := Glob.HeapOK st
 
 /-- with a well-formed heap the fuel of the walk is irrelevant once it exceeds the frame id -/
 theorem findFrame_fuel (st : St) (h : HeapOK st) (x : String) :
@@ -98,6 +98,34 @@ theorem resolved_write_eq_dynamic (rec : St → Sx → Res) (st st1 : St) (h : H
     setLoop rec st [.list true [.sym x (some k), e]] .none = setLoop rec st [.list true [.sym x Option.none, e]] .none := by
   simp only [setLoop, he, bind, Except.bind, hh, ofOpt, pure, Except.pure,
     write_hop st1 h x v k st1.env j henv hh hs]
+
+/-! ## the heap invariant holds in every reachable state -/
+
+/-- **well-formedness of the frame heap is an invariant of evaluation**, for every expression and every fuel — by
+induction on the fuel through every operator of the model (`Glob.eval_P`). The hypotheses `HeapOK st` and
+`st.env < st.frames.size` of the lemmas above are therefore facts about every state an evaluation can reach from a
+well-formed one (the fresh interpreter state is well formed: `C17.init_ok`), not assumptions -/
+theorem heap_ok_invariant (n : Nat) (st st' : St) (e v : Sx) (hok : Glob.Ok st)
+    (h : eval n st e = .ok (v, st')) :
+    HeapOK st' ∧ st'.env < st'.frames.size ∧ st'.env = st.env ∧ st.frames.size ≤ st'.frames.size := by
+  obtain ⟨⟨h1, h2⟩, h3, h4⟩ := Glob.eval_P n st e v st' h hok
+  exact ⟨h1, h2, h3, h4⟩
+
+/-- the same through the whole pipeline (expand → optimize → resolve → eval), whichever passes are switched on -/
+theorem heap_ok_pipeline (m : Mode) (n : Nat) (st st' : St) (e v : Sx) (hok : Glob.Ok st)
+    (h : walEval m n st e = .ok (v, st')) : Glob.Ok st' ∧ st'.env = st.env :=
+  let r := Glob.walEval_P m n st st' e v h hok
+  ⟨r.1, r.2.1⟩
+
+/-- **in every state reached by an evaluation, a resolved read denotes the same cell as the dynamic lookup** whenever
+the `k` skipped frames do not bind the name — `resolved_read_eq_dynamic` with its heap premises discharged -/
+theorem resolved_read_eq_dynamic_reachable (rec : St → Sx → Res) (n : Nat) (st0 st : St) (e0 v0 : Sx)
+    (hok : Glob.Ok st0) (hreach : eval n st0 e0 = .ok (v0, st)) (x : String) (k j : Nat)
+    (hal : st.aliases.lookup x = Option.none) (hsig : st.tc.contains x = some false)
+    (hh : st.hop st.env k = some j) (hs : SkipsFree st x st.env k) :
+    evalSym rec st x (some k) = evalSym rec st x Option.none := by
+  obtain ⟨h1, h2, _, _⟩ := heap_ok_invariant n st0 st e0 v0 hok hreach
+  exact resolved_read_eq_dynamic rec st h1 x k j h2 hal hsig hh hs
 
 /-! ## what the pass computes -/
 
